@@ -51,7 +51,7 @@ fn build(tier: Tier) -> Box<dyn Check> {
         };
         format!("{}{}", prefix, t)
     });
-    Box::new(C12 { fams: vec![("chars".into(), chars), ("pieces".into(), seqs), ("far-positions".into(), far), ("unicode-classes".into(), Space::of(super::lexemes::unicode_texts()))] })
+    Box::new(C12 { fams: vec![("chars".into(), chars), ("pieces".into(), seqs), ("far-positions".into(), far), ("unicode-classes".into(), Space::of(super::lexemes::unicode_texts())), ("long-multibyte-tokens".into(), Space::of(super::lexemes::long_multibyte_texts()))] })
 }
 
 fn gap_ok(gap: &str) -> Result<(), char> {
